@@ -292,6 +292,15 @@ func Run[C any](t *testing.T, r *Rec, gen func(*rapid.T) C, check func(C, *Rec) 
 
 // Replay evaluates one saved case.
 func Replay[C any](t *testing.T, r *Rec, path string, check func(C, *Rec) []Disc) {
+	if st, err := os.Stat(path); err == nil && st.IsDir() {
+		es, _ := os.ReadDir(path)
+		for _, e := range es {
+			if !e.IsDir() {
+				Replay(t, r, filepath.Join(path, e.Name()), check)
+			}
+		}
+		return
+	}
 	b, err := os.ReadFile(path)
 	if err != nil {
 		t.Fatalf("replay: %v", err)
@@ -301,7 +310,7 @@ func Replay[C any](t *testing.T, r *Rec, path string, check func(C, *Rec) []Disc
 		t.Fatalf("replay: %v", err)
 	}
 	if f.Property != "" && f.Property != r.ID {
-		t.Skipf("replay file is for %s", f.Property)
+		return
 	}
 	var c C
 	raw := f.Case
@@ -316,7 +325,7 @@ func Replay[C any](t *testing.T, r *Rec, path string, check func(C, *Rec) []Disc
 	if un := r.Explain(ds); len(un) > 0 {
 		r.Fail(c, un)
 		for _, d := range un {
-			t.Errorf("[%s] %s", d.Sig, d.Msg)
+			t.Errorf("%s: [%s] %s", filepath.Base(path), d.Sig, d.Msg)
 		}
 	}
 }
@@ -350,6 +359,19 @@ func ReplayMode() bool { return os.Getenv("VERIF_REPLAY") != "" }
 // ReplayEither replays a saved case that may be of one of two case types (tried in order by strict decoding).
 func ReplayEither[A any, B any](t *testing.T, r *Rec, ca func(A, *Rec) []Disc, cb func(B, *Rec) []Disc) {
 	p := os.Getenv("VERIF_REPLAY")
+	replayEither(t, r, p, ca, cb)
+}
+
+func replayEither[A any, B any](t *testing.T, r *Rec, p string, ca func(A, *Rec) []Disc, cb func(B, *Rec) []Disc) {
+	if st, err := os.Stat(p); err == nil && st.IsDir() {
+		es, _ := os.ReadDir(p)
+		for _, e := range es {
+			if !e.IsDir() {
+				replayEither(t, r, filepath.Join(p, e.Name()), ca, cb)
+			}
+		}
+		return
+	}
 	b, err := os.ReadFile(p)
 	if err != nil {
 		t.Fatalf("replay: %v", err)
